@@ -143,6 +143,8 @@ class QsModel:
         if not isinstance(got, dict):
             self._fail(cls, f"{what}: expected a job snapshot for {j.tag()}, got {got!r}")
         exp = self.snapshot(j)
+        if j.state == "d":
+            exp.pop("ttl", None)  # how long a finished job is kept is the server's business
         for k, v in exp.items():
             default = {"done": False, "result": None, "error": None, "info": {}, "ttl": DEFAULT_TTL}.get(k)
             g = got.get(k, default)
@@ -405,10 +407,22 @@ class QsModel:
         at the server's job table, and bound them."""
         if self.sim is None:
             return
-        table = self.sim.workq.id2job
+        try:
+            table = self.sim.workq.id2job
+            table.get
+        except AttributeError:
+            self.whitebox = False
+            self.probe("whitebox-unavailable")
+            return
         for jid, j in list(self.jobs.items()):
             srv = table.get(jid)
-            if srv is not None and srv.serial == j.serial:
+            if srv is not None and getattr(srv, "serial", None) == j.serial:
+                if j.state == "d":
+                    # the time-to-live the server itself applies to this finished job (the
+                    # properties only say "dropped after its time-to-live", not how long it is)
+                    obs = getattr(srv, "ttl", None)
+                    if isinstance(obs, (int, float)):
+                        j.fin_ttl = obs
                 continue
             if j.state != "d":
                 self._fail("R-final", f"unfinished job {j.tag()} is no longer known to the server under its id "
@@ -466,7 +480,13 @@ class QsModel:
                            conn=conn)
         self.inflight_possible = set()
         if self.whitebox and self.sim is not None:
-            self._check_locations()
+            try:
+                self._check_locations()
+            except (AttributeError, TypeError, KeyError):
+                # the server's internals no longer look like channel2q / running_jobs: the
+                # black-box rules (deliveries, drain) remain; never alarm on a refactoring
+                self.whitebox = False
+                self.probe("whitebox-unavailable")
         self.state_hashes.add(self.abstract_state())
 
     def _check_locations(self):
